@@ -1398,6 +1398,66 @@ pub fn table_case(i: u64) -> Option<Case> {
     Some(Case { lines })
 }
 
+/// Bounded-exhaustive family: every sequence of up to 3 operations over a 32-token alphabet, and
+/// every sequence of 4 and 5 operations over a 12-token core alphabet, on four tiny screens.
+/// Deterministic: case i is a function of i alone.
+const EXH_TOKENS: &[&[u8]] = &[
+    b"a", b"\xe4\xb8\x96", b"\xcc\x81", b"\r", b"\n", b"\x08", b"\x1b[K", b"\x1b[X", b"\x1b[@", b"\x1b[P", b"\x1b[A", b"\x1b[41m",
+    b"b", b"\t", b"\x1b[L", b"\x1b[M", b"\x1bM", b"\x1b[C", b"\x1b[H", b"\x1b[2;2H", b"\x1b[m", b"\x1b[J", b"\x1b[1K", b"\x1b[S",
+    b"\x1b[T", b"\x1b7", b"\x1b8", b"\x1b[?1049h", b"\x1b[?1049l", b"\x1b[1;2r", b"\x1b[?6h", b"\x1bc",
+];
+const EXH_CORE: u64 = 12;
+const EXH_SIZES: &[(u16, u16)] = &[(2, 3), (2, 2), (1, 3), (3, 2)];
+
+pub fn exh_size() -> u64 {
+    let n = EXH_TOKENS.len() as u64;
+    (n + n * n + n * n * n + EXH_CORE.pow(4) + EXH_CORE.pow(5)) * EXH_SIZES.len() as u64
+}
+
+pub fn exh_case(i: u64) -> Option<Case> {
+    if i >= exh_size() {
+        return None;
+    }
+    let (rows, cols) = EXH_SIZES[(i % EXH_SIZES.len() as u64) as usize];
+    let mut j = i / EXH_SIZES.len() as u64;
+    let n = EXH_TOKENS.len() as u64;
+    let (len, base) = if j < n {
+        (1, n)
+    } else if j < n + n * n {
+        j -= n;
+        (2, n)
+    } else if j < n + n * n + n * n * n {
+        j -= n + n * n;
+        (3, n)
+    } else if j < n + n * n + n * n * n + EXH_CORE.pow(4) {
+        j -= n + n * n + n * n * n;
+        (4, EXH_CORE)
+    } else {
+        j -= n + n * n + n * n * n + EXH_CORE.pow(4);
+        (5, EXH_CORE)
+    };
+    let mut toks: Vec<&[u8]> = vec![];
+    for _ in 0..len {
+        toks.push(EXH_TOKENS[(j % base) as usize]);
+        j /= base;
+    }
+    let mut lines = vec![format!("NEW {rows} {cols} 1 0")];
+    let (pre, last) = toks.split_at(toks.len() - 1);
+    let pre: Vec<u8> = pre.iter().flat_map(|t| t.iter().copied()).collect();
+    if !pre.is_empty() {
+        lines.push(format!("P {}", hex(&pre)));
+    }
+    lines.push("SNAP 0".into());
+    lines.push(format!("P {}", hex(last[0])));
+    for l in ["DUMP", "OBS", "LOG", "FMT state", "FMT contents", "FMT cursor", "DIFF state 0", "DIFF contents 0", "TEXT"] {
+        lines.push(l.into());
+    }
+    lines.push(format!("ROWSF 0 {cols}"));
+    lines.push(format!("ROWSD 0 0 {cols}"));
+    lines.push("VIEWS".into());
+    Some(Case { lines })
+}
+
 pub fn family(name: &str) -> fn(&mut Rng) -> Case {
     match name {
         "stream" => fam_stream,
